@@ -202,7 +202,7 @@ class C03(Prop):
         from vcore import links_gen
         from vcore.links_models import link_models
         from vcore import links_misc
-        return [link_binning, link_models, links_misc.link_pipeline, links_misc.link_lean] + links_gen.links_for("C03")
+        return [link_binning, link_models, links_misc.link_pipeline, links_misc.link_lean, links_misc.link_thorough_binning] + links_gen.links_for("C03")
 
     def canaries(self, ctx):
         t = BIN + "deterministic_choice"
@@ -222,7 +222,7 @@ class C10(Prop):
 
     def links(self, ctx):
         from vcore import links_gen, links_misc
-        return [link_binning, links_misc.link_pipeline, links_misc.link_lean] + links_gen.links_for("C10")
+        return [link_binning, links_misc.link_pipeline, links_misc.link_lean, links_misc.link_thorough_binning] + links_gen.links_for("C10")
 
     def canaries(self, ctx):
         t = BIN + "deterministic_choice"
@@ -241,7 +241,7 @@ class C16(Prop):
 
     def links(self, ctx):
         from vcore import links_misc
-        return [link_binning, links_misc.link_lean]
+        return [link_binning, links_misc.link_lean, links_misc.link_thorough_binning]
 
     def canaries(self, ctx):
         t = BIN + "deterministic_choice"
